@@ -153,6 +153,8 @@ func c06case(s *Sexp) string {
 		sc := newSched(sub, programs)
 		defer sc.close()
 		return sc.runPP(choices, 400)
+	case "dstress":
+		return dstressCase(s)
 	case "dequeopts":
 		a := s.Args()
 		opts, _ := dequeOptions(&Sexp{IsLst: true, List: []*Sexp{{Atom: "cfg"}, {Atom: "opts"}, a[0], a[1], a[2]}})
